@@ -300,7 +300,13 @@ fn handle_item(
                     .get(scope.clone(), args, pos, file_context)
                     .map_err(|e| e.called_from(pos, name))?;
                 mixin.define_content(&scope, body.as_ref());
-                handle_parsed(mixin.body, dest, mixin.scope, file_context)
+                let locked = mixin.locked;
+                let result =
+                    handle_parsed(mixin.body, dest, mixin.scope, file_context);
+                if let Some(file) = locked {
+                    file_context.unlock_loading(&file);
+                }
+                result
                     .map_err(|e: Error| match e {
                         Error::Invalid(err, _) => err.at(pos.clone()),
                         Error::BadCall(msg, pos, p2) => {
